@@ -120,9 +120,9 @@ DeltaOf(it) == IF it.dU >= 0 THEN it.dU ELSE DeltaU(it.e)
 WithDelta(it, d) == [it EXCEPT !.dU = d]
 Emit(it, t, lat, ref) ==
     LET ev == it.e IN
-    IF it.ty = "mono_off" THEN
-         (IF it.gate THEN <<B(t + lat, "/n_set", it.mono, "", 0, 0, GateOff)>>
-          ELSE <<B(t + lat, "/n_free", it.mono, "", 0, 0, <<>>)>>)
+    IF it.ty = "mono_off" THEN          \* release of a voice, possibly delayed (articulated Pmono: after the sustain)
+         (IF it.gate THEN <<B(t + lat + N(ev, "_delayU", 0), "/n_set", it.mono, "", 0, 0, GateOff)>>
+          ELSE <<B(t + lat + N(ev, "_delayU", 0), "/n_free", it.mono, "", 0, 0, <<>>)>>)
     ELSE IF IsRest(ev) THEN <<>>
     ELSE IF it.ty = "mono_set" THEN <<B(t + lat, "/n_set", it.mono, "", 0, 0, SetPars(ev, it.names))>>
     ELSE LET desc == Descs[Instr(ev)]
@@ -151,7 +151,7 @@ SilentU(dU) == Item([k \in {"dur"} |-> VR(0)], "note", 0, <<>>, FALSE, dU)
 
 RECURSIVE EvSeq(_, _, _), CatSeq(_, _, _, _), DurCut(_, _, _, _, _, _), ParLoop(_, _, _, _, _, _, _)
 \* items a pattern yields for input event inev; base = first free mono reference
-CatSeq(l, inev, i, base) == IF i > Len(l) THEN <<>> ELSE EvSeq(l[i], inev, base + 10 * i) \o CatSeq(l, inev, i + 1, base)
+CatSeq(l, inev, i, base) == IF i > Len(l) THEN <<>> ELSE EvSeq(l[i], inev, base * 10 + i) \o CatSeq(l, inev, i + 1, base)
 \* Pdur(d, p, tolerance): events until the elapsed time, rounded UP to a multiple of the tolerance, reaches d; that
 \* event's delta is replaced by the time left, so that the total is exactly d (the *unrounded* elapsed time is what
 \* accumulates).  T = 0 stands for a tolerance finer than the time lattice (the default 0.001 s): elapsed >= d.
@@ -166,6 +166,28 @@ DurCut(its, i, elapsed, X, T, out) ==
 \* monos switched on but not off inside its: released when the player's stream ends
 OpenMonos(its) == {i \in 1..Len(its) : its[i].ty = "mono_on" /\ ~\E j \in 1..Len(its) : its[j].ty = "mono_off" /\ its[j].mono = its[i].mono}
 MonoOff(on) == Item(<<>>, "mono_off", on.mono, <<>>, on.gate, 0)
+Release(ref, gate, delayU) == Item([k \in {"_delayU"} |-> V(delayU)], "mono_off", ref, <<>>, gate, 0)
+\* Pmono(instrument, keys, articulate = TRUE) (sclang PmonoArtic).  Slur rule: an event continues (or, when no voice
+\* is running, starts) a voice iff its sustain >= its delta (both through the duration chain: explicit sustain /
+\* delta, else dur * legato * stretch / dur * stretch) and it is not a rest.  An event with sustain < delta ends
+\* the voice: running voice -> it is still set by this event and released sustain later; no voice -> the event is an
+\* ordinary note (own node, own gate-off).  A rest releases the running voice at once.  The stream's end releases it.
+\* evs = the merged events; act = reference of the running voice (0: none); k = voices started so far
+RECURSIVE ArticLoop(_, _, _, _, _, _, _, _)
+ArticLoop(evs, desc, i, act, names, k, base, out) ==
+    IF i > Len(evs) THEN (IF act # 0 THEN Append(out, Release(act, desc.gate, 0)) ELSE out)
+    ELSE LET e == evs[i]
+             slur == SustainU(e) >= DeltaU(e)
+             rest == IsRest(e) IN
+         IF act = 0 THEN
+              IF slur /\ ~rest
+              THEN LET ref == 0 - (base * 100 + k + 1)  nm == ParNames(e, desc) IN
+                   ArticLoop(evs, desc, i + 1, ref, nm, k + 1, base, Append(out, Item(e, "mono_on", ref, nm, desc.gate, 0 - 1)))
+              ELSE ArticLoop(evs, desc, i + 1, 0, names, k, base, Append(out, Note(e)))
+         ELSE LET set == Item(e, "mono_set", act, names, desc.gate, 0 - 1) IN
+              IF ~slur THEN ArticLoop(evs, desc, i + 1, 0, names, k, base, out \o <<Release(act, desc.gate, SustainU(e)), set>>)
+              ELSE IF rest THEN ArticLoop(evs, desc, i + 1, 0, names, k, base, out \o <<Release(act, desc.gate, 0), set>>)
+              ELSE ArticLoop(evs, desc, i + 1, act, names, k, base, Append(out, set))
 \* Ppar: children merged by absolute time; the queue is FIFO among equal times (entries <<time, stamp, child>>)
 QInsert(q, e) == LET k == Cardinality({i \in 1..Len(q) : q[i][1] < e[1] \/ (q[i][1] = e[1] /\ q[i][2] < e[2])}) IN
                  SubSeq(q, 1, k) \o <<e>> \o SubSeq(q, k + 1, Len(q))
@@ -189,9 +211,11 @@ EvSeq(E, inev, base) ==
                mk(i) == Merge(Merge(inev, BindKeys(E.ks, i)), [k \in {"instrument"} |-> VS(E.s)])
                desc == Descs[E.s]
                names == ParNames(mk(1), desc)
-               on == Item(mk(1), "mono_on", base, names, desc.gate, 0 - 1) IN
+               ref == 0 - (base * 100 + 1)              \* voices have negative references, notes positive ones
+               on == Item(mk(1), "mono_on", ref, names, desc.gate, 0 - 1) IN
            IF n = 0 THEN <<>>
-           ELSE [i \in 1..n |-> IF i = 1 THEN on ELSE Item(mk(i), "mono_set", base, names, desc.gate, 0 - 1)] \o <<MonoOff(on)>>
+           ELSE IF E.ar THEN ArticLoop([i \in 1..n |-> mk(i)], desc, 1, 0, <<>>, 0, base, <<>>)
+           ELSE [i \in 1..n |-> IF i = 1 THEN on ELSE Item(mk(i), "mono_set", ref, names, desc.gate, 0 - 1)] \o <<MonoOff(on)>>
       [] E.t = "seq" -> CatSeq(E.l, inev, 1, base)
       [] E.t = "chain" ->     \* Pchain(l[1], l[2]): l[2] is evaluated first, l[1] (a Pbind) overrides / adds its keys
            LET inner == EvSeq(E.l[2], inev, base) n == Min2(Len(inner), BindLen(E.l[1].ks)) IN
@@ -200,7 +224,7 @@ EvSeq(E, inev, base) ==
       [] E.t = "dur" -> LET cut == DurCut(EvSeq(E.p, inev, base), 1, 0, E.x * (U \div 32), E.tl * (U \div 32), <<>>)
                             open == OpenMonos(cut) IN
                         IF open = {} THEN cut ELSE Append(cut, MonoOff(cut[CHOOSE i \in open : TRUE]))
-      [] E.t = "par" -> LET cs == [i \in 1..Len(E.l) |-> EvSeq(E.l[i], inev, base + 10 * i)] IN
+      [] E.t = "par" -> LET cs == [i \in 1..Len(E.l) |-> EvSeq(E.l[i], inev, base * 10 + i)] IN
                         ParLoop(cs, [i \in 1..Len(cs) |-> <<0, i, i>>], [i \in 1..Len(cs) |-> 1], 0, Len(cs) + 1, <<>>, 600)
 
 \* the player: event k is played at start + the sum of the deltas before it; rests send nothing
